@@ -13,8 +13,10 @@ ID = 'C19'
 RULE = ('corpus + symmetric / multi-component curated molecules, each evaluated by several fresh interpreter processes with '
         'PYTHONHASHSEED in {0, 1, 2, 17, 12345, random}; per process every observable (canonical string, atoms_order, '
         'smiles_atoms_order, _chiral_morgan, sssr in order, connected components in order, linear / Morgan hash sets and '
-        'folded bit sets, ordered SMARTS match lists, canonicalize / standardize / neutralize results, tautomer list, pack '
-        'bytes) is read first (uncached), again (cached), after flush_cache() and on a copy; the parent compares digests '
+        'folded bit sets, ordered SMARTS match lists, results of ten in-place operations on cold and on warmed copies, tautomer '
+        'list, pack bytes) is read first (uncached), again (cached), after flush_cache() in a shuffled sequence, on a copy in the '
+        'opposite sequence and cached in the opposite sequence; inputs include unsymmetrical azolium cations, rings whose '
+        'equivalent centres all carry labels and stereo elements that exist only through an isotope; the parent compares digests '
         'across processes; non-trivial = molecule with a ring or symmetry (non-singleton Morgan classes), distinct by input')
 ASSUMPTIONS = ['CachedMethods compatibility shim', 'hash(mol) is excluded: it is the hash of a str and seed dependent by language '
                'definition; the property does not list it', 'pack bytes come from the .pyx source under pyxsan']
